@@ -499,9 +499,9 @@ func (e *Enc) assumeExisting(st *State, guard Term, v Term, t types.Type) {
 	}
 }
 
-// sliceWF: 0 <= len <= cap <= 2^48, off within 2^48, nil slice has zero len/cap (A3).
+// sliceWF: 0 <= len <= cap <= 2^47, off within 2^47, nil slice has zero len/cap (A3).
 func (e *Enc) sliceWF(s Term) Term {
-	lim := i64(1 << 48)
+	lim := i64(1 << 47)
 	return and(sle(i64(0), sLen(s)), sle(sLen(s), sCap(s)), sle(sCap(s), lim),
 		sle(i64(0), sOff(s)), sle(sOff(s), lim),
 		implies(eq(sReg(s), i64(0)), eq(sCap(s), i64(0))))
